@@ -269,10 +269,8 @@ class E5Buzzer(Engine):
             tones = [(k, r) for k, r in evs if k in ("TONE", "NOTONE")]
             delays = [int(r) for k, r in evs if k == "DLY"]
             sers = [r for k, r in evs if k == "SER"]
-            # generic: a frequency <= 0 never starts a tone
-            for k, r in tones:
-                if k == "TONE" and int(r.split()[1]) <= 0:
-                    return ("tone-nonpositive", f"{marker}: tone() started with frequency {r.split()[1]}")
+            # (a requested frequency <= 0 never starts a tone: checked per call below, where the request is known;
+            #  a positive request below 0.5 Hz legitimately rounds to tone(pin, 0))
             m = call["method"]
             timed = m in ("beep", "sweep", "melody") or (m == "play_tone" and call.get("duration_ms") is not None)
             # every sound is bounded: no call may block longer than a generous bound on what it was asked for
@@ -368,6 +366,17 @@ class E5Buzzer(Engine):
             start, end, dur, steps = call["start_hz"], call["end_hz"], call["duration_ms"], call["steps"]
             if sum(delays) > dur + 1e-9:
                 return ("sweep-duration", f"{marker}: sweep delays {sum(delays)} ms exceed duration_ms={dur}")
+            if steps >= 1:
+                # per-step reference: linear interpolation in float32, negative values clamp to 0 (= no tone)
+                want = []
+                s0, e0 = max(0.0, f32(start)), max(0.0, f32(end))
+                for i in range(steps):
+                    prog = 1.0 if steps == 1 else f32(f32(i) / f32(f32(steps) - 1.0))
+                    fr = f32(s0 + f32(f32(e0 - s0) * prog))
+                    if fr > 0:
+                        want.append(int(fr + 0.5))
+                if len(tone_freqs) != len(want) or any(abs(a - b) > 1 for a, b in zip(tone_freqs, want)):
+                    return ("sweep-tones", f"{marker}: sweep({start}, {end}, steps={steps}) sounded {tone_freqs}, expected {want}")
             if steps >= 1 and start > 0 and end > 0:
                 if len(tone_freqs) != steps:
                     return ("sweep-steps", f"{marker}: sweep(steps={steps}) played {len(tone_freqs)} tones")
